@@ -510,6 +510,19 @@ class Gen:
             self.containers.insert(d(st.integers(0, len(self.containers))),
                                    {"name": self.fresh("W"), "entries": wentries, "base": None, "match": None,
                                     "abstract": False, "short": None, "long": self.text()})
+        if self.chance(self.p.get("spare", 0.15)):
+            # parameters that no container uses (legal, common in hand-written documents): with a type of their own
+            # or sharing one; they are not part of what the containers define
+            for _ in range(d(st.integers(1, 2))):
+                if self.chance(0.5):
+                    tname = self.fresh("ST")
+                    self.types.append({"kind": "int", "name": tname, "unit": d(st.sampled_from([None, "V"])),
+                                       "enc": {"k": "int", "bits": d(st.sampled_from([8, 16, 3])), "sign": "unsigned",
+                                               "order": BE, "dcal": None, "ccals": None}})
+                else:
+                    tname = d(st.sampled_from([t["name"] for t in self.types]))
+                self.params.insert(d(st.integers(0, len(self.params))),
+                                   {"name": self.fresh("SP"), "type": tname, "short": self.text(), "long": None})
         # order of the container set is free: sometimes list children before parents / nested after users
         order = d(st.sampled_from(["as-built", "reversed", "root-first"]))
         conts = list(self.containers)
